@@ -39,7 +39,7 @@ class Target(object):
         k = self.kind
         if k in ('gauss-box', 'flat-box'):
             return bool(np.all(x >= self.lo) and np.all(x <= self.hi))
-        if k == 'half':
+        if k in ('half', 'nan-half'):
             return bool(x[0] >= self.mu[0])
         if k == 'nan-region':
             return bool(x[0] > self.mu[0] - 1.0)
@@ -51,7 +51,7 @@ class Target(object):
         self.ncalls += 1
         x = np.asarray(x, dtype=float).reshape(-1)
         if not self.inside(x):
-            return float('nan') if self.kind == 'nan-region' else -float('inf')
+            return float('nan') if self.kind in ('nan-region', 'nan-half') else -float('inf')
         if self.kind == 'flat-box':
             return 0.0
         if self.kind == 'exp':
@@ -79,7 +79,7 @@ class Target(object):
         if self.kind == 'exp':
             return rs.uniform(0.05, 0.5, size=self.d)
         x = self.mu + rs.uniform(-0.3, 0.3, size=self.d)
-        if self.kind == 'half':
+        if self.kind in ('half', 'nan-half'):
             x[0] = self.mu[0] + rs.uniform(0.01 if near_edge else 0.2, 0.6)
         if self.kind == 'nan-region' and near_edge:
             x[0] = self.mu[0] - 1.0 + rs.uniform(0.01, 0.2)
@@ -100,6 +100,8 @@ def strat_metropolis(tier):
         'target': target_desc(), 'n': st.integers(1, 80), 'warmup': st.integers(0, 20),
         'sigma': st.one_of(st.sampled_from([0.1, 0.5, 1.0, 3.0]), st.lists(st.sampled_from([0.1, 0.5, 1.0, 3.0]), min_size=4, max_size=4)),
         'seed': st.integers(0, 2 ** 32 - 1), 'near_edge': st.booleans(),
+        # integer-typed start and/or proposal scales (the chain is still a float chain)
+        'int_inputs': st.sampled_from(['no', 'no', 'no', 'x0', 'sigma', 'both']),
     })
 
 
@@ -134,7 +136,16 @@ def run_metropolis(case):
     rs = np.random.RandomState(case['target']['seed'] + 7)
     x0 = t.start(rs, case['near_edge'])
     sigma = case['sigma'] if not isinstance(case['sigma'], list) else np.array(case['sigma'][:d])
-    ctx = 'target=%r n=%d warmup=%d sigma=%r seed=%d x0=%r' % (case['target'], case['n'], case['warmup'], case['sigma'], case['seed'], x0.tolist())
+    ii = case.get('int_inputs', 'no')
+    if ii in ('x0', 'both'):
+        xi = np.round(x0).astype(int)
+        v = t(xi)
+        if not (math.isinf(v) or math.isnan(v)):
+            x0 = xi
+    if ii in ('sigma', 'both'):
+        sigma = 1 if not isinstance(case['sigma'], list) else np.array([1, 2, 1, 3][:d])
+    ctx = 'target=%r n=%d warmup=%d sigma=%r (%s) seed=%d x0=%r (%s)' % (case['target'], case['n'], case['warmup'], sigma, np.asarray(sigma).dtype,
+                                                                      case['seed'], x0.tolist(), x0.dtype)
     with must_not_raise(P, 'metropolis; ' + ctx):
         with np.errstate(all='ignore'):
             got = metropolis(case['n'], x0.copy(), Target(case['target']), sigma, warmup=case['warmup'], seed=case['seed'])
@@ -155,6 +166,8 @@ def run_metropolis(case):
         if math.isinf(v) or math.isnan(v):
             raise Violation('C09:metropolis-state-outside-support', 'state %d = %r has log-target %r; %s' % (k, x.tolist(), v, ctx))
     labels = ['target=' + t.kind]
+    if x0.dtype.kind == 'i' or np.asarray(sigma).dtype.kind == 'i':
+        labels.append('integer-typed-inputs')
     if stats['outside']:
         labels.append('proposal-outside-support')
     mixed = stats['acc'] > 0 and stats['rej'] > 0
@@ -216,7 +229,7 @@ def run_nuts(case):
 
 def strat_moments(tier):
     return st.fixed_dictionaries({
-        'algo': st.sampled_from(['nuts', 'metropolis']), 'kind': st.sampled_from(['gauss', 'half', 'exp']),
+        'algo': st.sampled_from(['nuts', 'metropolis']), 'kind': st.sampled_from(['gauss', 'half', 'exp', 'nan-half']),
         'd': st.integers(1, 2), 'seed': st.integers(0, 10 ** 6), 'tseed': st.integers(0, 10 ** 6),
     })
 
@@ -252,7 +265,7 @@ def run_moments(case, n=None):
     tol = 5.0 * math.sqrt(v0 / ess_lb)
     if abs(mean - m0) > tol:
         raise Violation('C09:moments-mean', 'chain mean %.4f, target mean %.4f (tolerance %.4f = 5 sd / sqrt(ESS lower bound %.0f)); %s' % (mean, m0, tol, ess_lb, ctx))
-    kurt = {'gauss': 3.0, 'half': 3.87, 'exp': 9.0}[t.kind]
+    kurt = {'gauss': 3.0, 'half': 3.87, 'nan-half': 3.87, 'exp': 9.0}[t.kind]
     vtol = 5.0 * math.sqrt((kurt - 1.0) / ess_lb)          # 5 standard errors of a variance estimate from ESS_lb draws
     if not (max(0.2, 1 - vtol) <= var / v0 <= 1 + vtol):
         raise Violation('C09:moments-variance', 'chain variance / target variance = %.3f (tolerance +-%.2f); %s' % (var / v0, vtol, ctx))
@@ -273,7 +286,7 @@ CHECK = Check(
           '(optionally next to the boundary), scalar or per-dimension proposal scales, warm-up 0-20, 1-80 states, seeds; the returned '
           'chain must be bit-equal to an independent implementation replaying RandomState(seed). nuts: n_iter 2-120, n_adapt, max_depth, '
           'row count, determinism, finite log-target at every returned state. moments: chains of 12000 (NUTS) / 48000 (Metropolis) draws '
-          'against analytic means/variances with 5-sigma-over-sqrt(ESS lower bound) tolerances. Non-trivial: the chain contains accepted '
+          'against analytic means/variances (Gaussian, Gaussian truncated by -inf or by NaN, exponential) with 5-sigma-over-sqrt(ESS lower bound) tolerances. Non-trivial: the chain contains accepted '
           'and rejected moves and, for targets with a support, at least one proposal outside it (metropolis); the chain moved on a '
           'target with a support (nuts).'),
     parts=[Part('metropolis', run_metropolis, strategy=strat_metropolis, examples={'quick': 600, 'thorough': 48000}),
